@@ -23,7 +23,7 @@ fn frame_ok(b: &[u8; C02_BUF], n: usize, exact: bool) -> bool {
     magic && len == total && (if exact { n as u128 == total } else { n as u128 >= total })
 }
 
-//@ prop: C02
+//@ prop: C02, C01
 //@ tier: quick
 //@ clause: MessageView::from_slice(_exact) never panic on any bytes; succeed exactly when magic, declared total == 48+q+b and the buffer holds the frame (exact: no trailing bytes); returned query/body are exactly the corresponding input ranges
 //@ funcs: MessageView::from_slice; MessageView::from_slice_exact; Header::decode
@@ -1023,6 +1023,26 @@ macro_rules! c08_aligned {
         }
     };
 }
+
+//@ name: c08_bulk_roundtrip_f64_empty
+//@ prop: C08
+//@ tier: quick
+//@ clause: the empty slice of f64 through the bulk path: decodes to the empty slice; the streaming writer emits the same frame as the buffered builder (a 2-byte body: typed header, length 0); another element type (i64) or another body format is rejected
+//@ funcs: MessageBuilder::body_typed_slice; Message::decode_typed_slice; Message::require_body_format; io::write_message_typed_slice; io::write_message_streaming; io::write_message; beve::to_writer_typed_slice; beve::typed_slice_size; beve::read_typed_slice
+//@ symbolic: request id, the body-format code the caller left in the header, the wrong body-format code
+//@ bounds: 0 elements; query "/v"; unwind 70
+//@ oracle: byte equality of the two frames; Ok(empty); Err on the two guards
+c08_bulk!(c08_bulk_roundtrip_f64_empty, f64, i64, 0);
+
+//@ name: c08_bulk_roundtrip_u8_empty
+//@ prop: C08
+//@ tier: thorough
+//@ clause: as c08_bulk_roundtrip_f64_empty for u8 (other type: i8)
+//@ funcs: MessageBuilder::body_typed_slice; Message::decode_typed_slice; io::write_message_typed_slice; io::write_message
+//@ symbolic: request id, the body-format code the caller left in the header, the wrong body-format code
+//@ bounds: 0 elements; query "/v"; unwind 70
+//@ oracle: byte equality of the two frames; Ok(empty); Err on the two guards
+c08_bulk!(c08_bulk_roundtrip_u8_empty, u8, i8, 0);
 
 //@ name: c08_bulk_roundtrip_u8
 //@ prop: C08
